@@ -102,7 +102,12 @@ func (sfc *StructFieldsCopy) createFieldSnippet(f *types.Var) snippet.Snippet {
 			}
 		}
 
-		if fc.InSamePkg {
+		if _, isInterface := x.Underlying().(*types.Interface); fc.InSamePkg && isInterface {
+			// nothing is generated for an interface type,
+			// the value is assigned as it is, like `error` or `any`
+			fc.HasDeepCopyInto = false
+			fc.HasDeepCopy = false
+		} else if fc.InSamePkg {
 			if sfc.OnLocalDep != nil {
 				sfc.OnLocalDep(x)
 			}
